@@ -13,7 +13,7 @@ from typing import Dict, List, Optional, Set
 
 from ..index import AnalysisError, call_name, norm, norm1
 from .attrs import fold_class_list
-from ..sem import Sem, built_container, inline_private_helpers
+from ..sem import desugar_shallow_copy, Sem, built_container, inline_private_helpers
 from .common import calls, enclosing, enclosing_all, fctx, in_body, is_name, method_calls, pmatch, stmts
 
 LEVEL = "other"
@@ -375,7 +375,7 @@ def run(ctx) -> None:
             m = c.methods.get(mname)
             if m is None:
                 raise AnalysisError(f"{cn}.{mname} vanished")
-            m = inline_private_helpers(idx, m)
+            m = desugar_shallow_copy(idx, inline_private_helpers(idx, m))
             MS = Sem(idx, m)
             for cc in _ctor_calls(m):
                 r2.instance(f"{cn}.{mname}: {norm1(cc.func)}(…)")
@@ -400,7 +400,7 @@ def run(ctx) -> None:
     e = idx.cls(ER, "EnergyResult")
     forms = {"__add__": "self.data + OTHER.data", "__mul__": "self.data * OTHER", "mul_array": "self.data * OTHER.reshape(ANY)"}
     for mname, frag in forms.items():
-        m = inline_private_helpers(idx, e.methods[mname])
+        m = desugar_shallow_copy(idx, inline_private_helpers(idx, e.methods[mname]))
         MS = Sem(idx, m)
         r3.instance(f"EnergyResult.{mname}")
         okd = False
